@@ -8,7 +8,11 @@
 (* one request in flight per destination, exactly one outcome eventually   *)
 (* comes back (ack / error / reject / abort, incl. the local abort).       *)
 (*                                                                         *)
-(*   Request(k, d)   IOController.request_io -> process_io -> SieveQueue   *)
+(*   Request(k, d, u) IOController.request_io -> process_io -> SieveQueue  *)
+(*                   (u: an unconfirmed request through an IOCB, complete  *)
+(*                   as soon as it has been handed down: _app_request)     *)
+(*   Direct(d)       ApplicationIOController.request: an unconfirmed       *)
+(*                   request sent without an IOCB; touches no queue        *)
 (*   Outcome(d, ok)  ApplicationIOController.confirmation -> _app_complete *)
 (*                   -> complete_io / abort_io (+ deferred _trigger,       *)
 (*                   + removal of the idle, empty queue)                   *)
@@ -26,22 +30,38 @@ VARIABLES st,       \* [K -> {"idle", "pending", "active", "completed", "aborted
           pend,     \* [D -> Seq(K)]      SieveQueue.ioQueue
           trig,     \* [D -> Nat]         deferred _trigger calls outstanding
           qexists,  \* [D -> BOOLEAN]     destination has an entry in queue_by_address
+          unc,      \* [K -> BOOLEAN]     the IOCB carries an unconfirmed request
           act
-vars == <<st, dest, cb, active, pend, trig, qexists, act>>
+vars == <<st, dest, cb, active, pend, trig, qexists, unc, act>>
 
 Init == /\ st = [k \in K |-> "idle"] /\ dest = [k \in K |-> 0] /\ cb = [k \in K |-> 0]
         /\ active = [d \in D |-> 0] /\ pend = [d \in D |-> <<>>] /\ trig = [d \in D |-> 0]
-        /\ qexists = [d \in D |-> FALSE] /\ act = [op |-> "init", k |-> 0, d |-> 0]
+        /\ qexists = [d \in D |-> FALSE] /\ unc = [k \in K |-> FALSE] /\ act = [op |-> "init", k |-> 0, d |-> 0]
 
-Request(k, d) ==
+Request(k, d, u) ==
     /\ st[k] = "idle" /\ dest[k] = 0
     /\ dest' = [dest EXCEPT ![k] = d]
-    /\ qexists' = [qexists EXCEPT ![d] = TRUE]
+    /\ unc' = [unc EXCEPT ![k] = u]
     /\ IF active[d] # 0
-         THEN /\ st' = [st EXCEPT ![k] = "pending"] /\ pend' = [pend EXCEPT ![d] = Append(@, k)] /\ UNCHANGED active
-         ELSE /\ st' = [st EXCEPT ![k] = "active"] /\ active' = [active EXCEPT ![d] = k] /\ UNCHANGED pend
+         THEN /\ st' = [st EXCEPT ![k] = "pending"] /\ pend' = [pend EXCEPT ![d] = Append(@, k)]
+              /\ qexists' = [qexists EXCEPT ![d] = TRUE]
+              /\ UNCHANGED <<active, cb, trig>>
+         ELSE IF u
+         THEN \* sent and complete at once: _app_request -> _app_complete(destination, None)
+              /\ st' = [st EXCEPT ![k] = "completed"] /\ cb' = [cb EXCEPT ![k] = @ + 1]
+              /\ trig' = [trig EXCEPT ![d] = @ + 1]
+              /\ qexists' = [qexists EXCEPT ![d] = (pend[d] # <<>>)]
+              /\ UNCHANGED <<active, pend>>
+         ELSE /\ st' = [st EXCEPT ![k] = "active"] /\ active' = [active EXCEPT ![d] = k]
+              /\ qexists' = [qexists EXCEPT ![d] = TRUE]
+              /\ UNCHANGED <<pend, cb, trig>>
     /\ act' = [op |-> "request", k |-> k, d |-> d]
-    /\ UNCHANGED <<cb, trig>>
+
+\* an unconfirmed request sent without an IOCB (Who-Is, I-Am, a notification): nothing to complete, and in particular
+\* not the confirmed request that happens to be in flight toward the same address
+Direct(d) ==
+    /\ act' = [op |-> "direct", k |-> 0, d |-> d]
+    /\ UNCHANGED <<st, dest, cb, active, pend, trig, qexists, unc>>
 
 \* the stack delivers the outcome of the request in flight toward d
 Outcome(d, ok) ==
@@ -53,23 +73,34 @@ Outcome(d, ok) ==
     /\ trig' = [trig EXCEPT ![d] = @ + 1]
     /\ qexists' = [qexists EXCEPT ![d] = (pend[d] # <<>>)]          \* idle and empty: forgotten
     /\ act' = [op |-> "outcome", k |-> active[d], d |-> d]
-    /\ UNCHANGED <<dest, pend>>
+    /\ UNCHANGED <<dest, pend, unc>>
 
 Trigger(d) ==
     /\ trig[d] > 0
-    /\ trig' = [trig EXCEPT ![d] = @ - 1]
     /\ IF active[d] = 0 /\ pend[d] # <<>>
          THEN LET k == Head(pend[d]) IN
-              /\ st' = [st EXCEPT ![k] = "active"] /\ active' = [active EXCEPT ![d] = k]
-              /\ pend' = [pend EXCEPT ![d] = Tail(@)]
-         ELSE UNCHANGED <<st, active, pend>>
+              IF unc[k]
+              THEN \* the queued unconfirmed request goes out and is complete; the next trigger is deferred
+                   /\ st' = [st EXCEPT ![k] = "completed"] /\ cb' = [cb EXCEPT ![k] = @ + 1]
+                   /\ pend' = [pend EXCEPT ![d] = Tail(@)]
+                   /\ qexists' = [qexists EXCEPT ![d] = (Tail(pend[d]) # <<>>)]
+                   /\ UNCHANGED <<active, trig>>
+              ELSE /\ st' = [st EXCEPT ![k] = "active"] /\ active' = [active EXCEPT ![d] = k]
+                   /\ pend' = [pend EXCEPT ![d] = Tail(@)]
+                   /\ trig' = [trig EXCEPT ![d] = @ - 1]
+                   /\ UNCHANGED <<cb, qexists>>
+         ELSE /\ trig' = [trig EXCEPT ![d] = @ - 1]
+              /\ UNCHANGED <<st, active, pend, cb, qexists>>
     /\ act' = [op |-> "trigger", k |-> 0, d |-> d]
-    /\ UNCHANGED <<dest, cb, qexists>>
+    /\ UNCHANGED <<dest, unc>>
 
-Next == \/ \E k \in K, d \in D : Request(k, d)
+Next == \/ \E k \in K, d \in D, u \in BOOLEAN : Request(k, d, u)
+        \/ \E d \in D : Direct(d)
         \/ \E d \in D, ok \in BOOLEAN : Outcome(d, ok)
         \/ \E d \in D : Trigger(d)
-Spec == Init /\ [][Next]_vars /\ WF_vars(Next)
+\* fairness: the stack keeps its promise (an outcome for the request in flight) and deferred calls are run; the
+\* application may go on sending unconfirmed requests forever
+Spec == Init /\ [][Next]_vars /\ WF_vars(\E d \in D, ok \in BOOLEAN : Outcome(d, ok)) /\ WF_vars(\E d \in D : Trigger(d))
 
 \* ---- properties (C04, IOCB half) -------------------------------------------------------
 Done(k) == st[k] \in {"completed", "aborted"}
@@ -87,5 +118,10 @@ NoResidue == Quiescent => /\ \A k \in K : dest[k] # 0 => Done(k)
 Rank(s) == CASE s = "idle" -> 0 [] s = "pending" -> 1 [] s = "active" -> 2 [] OTHER -> 3
 A_Monotone == \A k \in K : Rank(st'[k]) >= Rank(st[k]) /\ (Rank(st[k]) = 3 => st'[k] = st[k]) /\ cb'[k] >= cb[k]
 Monotone == [][A_Monotone]_vars
+\* an outcome comes from the stack's answer to that very request: sending something else -- with or without an IOCB --
+\* completes no confirmed request
+A_OutcomeOnlyFromReply ==
+    \A k \in K : (~unc[k] /\ st[k] \in {"pending", "active"} /\ Rank(st'[k]) = 3) => act'.op = "outcome" /\ act'.k = k
+OutcomeOnlyFromReply == [][A_OutcomeOnlyFromReply]_vars
 EventuallyAllDone == <>[](\A k \in K : dest[k] # 0 => Done(k))
 =============================================================================
